@@ -88,6 +88,12 @@ fn entry_bytes(e: &LogEntry) -> Vec<u8> {
     bitcode::serialize(e).unwrap_or_default()
 }
 
+/// (first held index, last_log_index, last_log_term); an empty log holds nothing: first = last + 1
+fn held_range(n: &RaftNode) -> (u64, u64, u64) {
+    let li = n.last_log_index();
+    (li.saturating_sub(n.log_length() as u64) + 1, li, n.last_log_term())
+}
+
 fn file_len(p: &Path) -> u64 {
     std::fs::metadata(p).map(|m| m.len()).unwrap_or(0)
 }
@@ -117,7 +123,7 @@ struct Ledger {
     votes: Vec<(u64, u64, String)>,
     entries: Vec<EntryObl>,
     /// ack boundary -> (log_length, last_log_index, last_log_term) the live node reported there
-    shape: BTreeMap<u64, (u64, u64, u64)>,
+    shape: BTreeMap<u64, (u64, u64, u64, Option<Vec<u64>>)>,
 }
 
 impl Ledger {
@@ -141,6 +147,15 @@ impl Ledger {
     fn supersede_from(&mut self, index: u64, pre: u64) {
         for e in self.entries.iter_mut() {
             if e.until.is_none() && e.index >= index {
+                e.until = Some(pre);
+            }
+        }
+    }
+    /// an installed snapshot starts at `first`: what precedes it is covered by the snapshot and
+    /// compacted on the live node from that call on
+    fn supersede_below(&mut self, first: u64, pre: u64) {
+        for e in self.entries.iter_mut() {
+            if e.until.is_none() && e.index < first {
                 e.until = Some(pre);
             }
         }
@@ -373,16 +388,29 @@ impl Sim {
         }
         self.calls.insert(post);
         r.count("ack_boundaries", 1);
-        let shape = self.live_shape();
-        self.led.shape.insert(post, shape);
+        let (first, li, lt) = self.live_shape();
+        if self.node().log_length() > 0 {
+            self.base = first - 1;
+        }
+        // the model is attached at the end of the step (it is updated after the reply is read)
+        self.led.shape.insert(post, (first, li, lt, None));
         post
     }
 
-    /// (logical log length, last_log_index, last_log_term) of the live node; a restarted node has
-    /// no compaction offset, so its log_length is compared with log_length + base of the live one
+    /// (first held index, last_log_index, last_log_term) of the live node. The first held index is
+    /// last_log_index - log_length + 1: what precedes it was compacted behind a snapshot.
     fn live_shape(&self) -> (u64, u64, u64) {
-        let n = self.node();
-        (n.log_length() as u64 + self.base, n.last_log_index(), n.last_log_term())
+        held_range(self.node())
+    }
+
+    /// at the end of a step: the ack boundary the file is at now describes the current model
+    fn attach_model(&mut self) {
+        if self.stop || self.node.is_none() {
+            return;
+        }
+        let l = file_len(&self.wal);
+        let (first, li, lt) = self.live_shape();
+        self.led.shape.insert(l, (first, li, lt, Some(self.model_log.clone())));
     }
 
     fn cur_term(&self) -> u64 {
@@ -398,7 +426,7 @@ impl Sim {
     fn check_model(&mut self, r: &mut Report) {
         let n = self.node();
         let (ml, mt) = self.model_last();
-        if n.log_length() as u64 + self.base != ml || n.last_log_index() != ml || n.last_log_term() != mt {
+        if n.log_length() as u64 > ml || n.last_log_index() != ml || n.last_log_term() != mt {
             r.inconclusive("live log shape differs from the follower-rule model (case dropped)");
             self.stop = true;
         }
@@ -867,9 +895,22 @@ impl Sim {
         let l = self.leaders[&t].clone();
         let s = 1 + self.rng.below(l.len());
         let entries: Vec<LogEntry> = (0..s).map(|i| mk_entry(i as u64 + 1, l[i])).collect();
-        // the snapshot is produced by the real code of a leader holding that log
+        // the snapshot is produced by the real code of a leader holding that log; half of the
+        // time that leader has compacted its own log before, so the snapshot starts after index 1
         let helper_t = CaptureTransport::new("helper", &self.peers);
         let helper = RaftNode::with_state("helper".into(), self.peers.clone(), helper_t, cfg(), t, None, entries);
+        let mut first = 1usize;
+        if s >= 2 && self.rng.bool() {
+            let f = 2 + self.rng.below(s - 1); // 2..=s
+            helper.set_finalized_height(f as u64);
+            if let Ok((m1, _)) = helper.create_snapshot() {
+                let _ = helper.truncate_log(&m1);
+            }
+            let (hf, hl, _) = held_range(&helper);
+            if hl == s as u64 {
+                first = hf as usize;
+            }
+        }
         helper.set_finalized_height(s as u64);
         let Ok((meta, data)) = helper.create_snapshot() else {
             r.count("snapshot_build_failed", 1);
@@ -893,35 +934,52 @@ impl Sim {
         } else {
             self.node().install_snapshot(meta.clone(), &data).is_ok()
         };
-        if ok {
-            self.base = 0; // the installed log starts at index 1 again
-        }
+        let base_before = self.base;
         let post = self.after_call(pre, r);
         self.trace.push(format!(
-            "install_snapshot(index {}, term {}, via {}) -> {} @{}",
+            "install_snapshot(entries {}..={}, last term {}, via {}) -> {} ; first held index {} -> {} @{}",
+            first,
             s,
             l[s - 1],
             if via_message { "SnapshotResponse" } else { "install_snapshot" },
             if ok { "installed" } else { "refused" },
+            base_before + 1,
+            self.base + 1,
             post
         ));
         if ok {
             r.count("snapshots_installed", 1);
-            // the log becomes the snapshot's entries 1..s. Entries the node holds that the snapshot
-            // repeats (same index, same term = same entry) stay promised throughout — a crash
-            // anywhere inside the install must not lose them; promises end only from the first
-            // index where the snapshot differs from the node's log, and behind the snapshot
-            let overlap = s.min(self.model_log.len());
-            let first_diff = (0..overlap).find(|i| self.model_log[*i] != l[*i]).map_or(s as u64 + 1, |i| i as u64 + 1);
-            if first_diff <= self.model_log.len() as u64 {
-                r.count("snapshot_installs_over_a_held_log", 1);
+            let n = self.model_log.len();
+            let already_held = s as u64 > base_before && s <= n && self.model_log[s - 1] == l[s - 1];
+            if already_held {
+                // the node holds the snapshot's last entry: by log matching the snapshot brings
+                // nothing new and the log stays as it is, including what follows the snapshot
+                r.count("snapshot_installs_log_kept", 1);
+                self.committed = self.committed.max(s);
+            } else {
+                // the log becomes the snapshot's entries first..=s; what precedes `first` is
+                // covered by the snapshot (compacted on the live node from now on). Entries the
+                // node holds that the snapshot repeats (same index, same term = same entry) stay
+                // promised throughout — a crash anywhere inside the install must not lose them;
+                // promises end from the first index where the snapshot differs from the node's
+                // log, behind the snapshot, and in front of its first entry
+                let overlap = s.min(n);
+                let first_diff = (first - 1..overlap).find(|i| self.model_log[*i] != l[*i]).map_or(s as u64 + 1, |i| i as u64 + 1);
+                if first_diff <= n as u64 {
+                    r.count("snapshot_installs_over_a_held_log", 1);
+                }
+                if first_diff > first as u64 && overlap >= first {
+                    r.count("snapshot_installs_repeating_held_entries", 1);
+                }
+                if first > 1 {
+                    r.count("snapshot_installs_from_a_compacted_leader", 1);
+                }
+                self.led.supersede_below(first as u64, pre);
+                self.led.supersede_from(first_diff, pre);
+                self.model_log = l[..s].to_vec();
+                self.committed = s;
             }
-            if first_diff > 1 && overlap > 0 {
-                r.count("snapshot_installs_repeating_held_entries", 1);
-            }
-            self.led.supersede_from(first_diff, pre);
-            self.model_log = l[..s].to_vec();
-            self.committed = s;
+            self.check_model(r);
             if self.snapshot_at.is_none() {
                 self.snapshot_at = Some(pre);
             }
@@ -954,6 +1012,7 @@ impl Sim {
         }
         r.count("protocol_steps", 1);
         self.note_commit();
+        self.attach_model();
     }
 
     /// what the live node regards as committed binds the environment from now on
@@ -984,6 +1043,7 @@ impl Sim {
             return;
         }
         let via_tick = self.rng.bool();
+        let old_base = self.base;
         let pre = file_len(&self.wal);
         let done = if via_tick {
             self.rt.block_on(self.node().tick_async()).is_ok()
@@ -1003,23 +1063,19 @@ impl Sim {
                 }
             }
         }
-        let n = self.node();
-        let new_base = if n.log_length() == 0 { self.base } else { n.last_log_index().saturating_sub(n.log_length() as u64) };
+        let new_base = self.base; // observed by after_call
         self.trace.push(format!(
             "finalize_to({}) + {} -> {} ; compaction offset {} -> {} @{}",
             h,
             if via_tick { "tick_async" } else { "create_snapshot/truncate_log" },
             if done { "ok" } else { "err" },
-            self.base,
+            old_base,
             new_base,
             post
         ));
-        if new_base > self.base {
+        if new_base > old_base {
             r.count("log_compactions", 1);
         }
-        self.base = new_base;
-        let shape = self.live_shape();
-        self.led.shape.insert(post, shape);
         self.check_model(r);
     }
 
@@ -1107,7 +1163,10 @@ impl Sim {
             }
         };
         let rec_term = node.current_term();
-        if rec.current_term != rec_term || rec.recovered_log.len() != node.log_length() {
+        // a restarted node holds the run of consecutive indices that ends the recovered log
+        let (first_r, li_r, lt_r) = held_range(&node);
+        let held_len = node.log_length();
+        if rec.current_term != rec_term || rec.recovered_log.len() < held_len {
             r.inconclusive("RaftRecoveryState and the restarted node disagree");
             return;
         }
@@ -1143,23 +1202,27 @@ impl Sim {
         let mut bad: Option<(String, bool)> = None;
         for e in self.led.entries.iter().filter(|e| e.from <= x && e.until.map_or(true, |u| x <= u)) {
             checked += 1;
-            let got = rec.recovered_log.get(e.index as usize - 1);
+            let got = if e.index >= first_r && e.index <= li_r {
+                rec.recovered_log.get(rec.recovered_log.len() - 1 - (li_r - e.index) as usize)
+            } else {
+                None
+            };
             if got.map(|g| g.as_slice()) != Some(e.bytes.as_slice()) {
                 let got_desc = match got.and_then(|g| bitcode::deserialize::<LogEntry>(g).ok()) {
                     Some(g) => format!("entry (index {}, term {})", g.index, g.term),
                     None => "nothing".to_string(),
                 };
                 bad = Some((format!(
-                    "entry (index {}, term {}) — {}, WAL {} bytes long at that moment — is not at log position {} after restart (found {}; restarted log has {} entries, last_log_index {} last_log_term {})",
+                    "entry (index {}, term {}) — {}, WAL {} bytes long at that moment — is not held at index {} after restart (found {}; the restarted node holds indices {}..={}, last_log_term {})",
                     e.index,
                     e.term,
                     e.why,
                     e.from,
                     e.index,
                     got_desc,
-                    rec.recovered_log.len(),
-                    node.last_log_index(),
-                    node.last_log_term()
+                    first_r,
+                    li_r,
+                    lt_r
                 ), e.snap));
                 break;
             }
@@ -1169,25 +1232,47 @@ impl Sim {
             self.violation_ctx(r, "acked-entry-lost", x, snap, d);
             return;
         }
-        // (4) at an ack boundary the restarted log has the shape the live node had there (nothing
-        //     resurrected, nothing missing)
+        // (4) at an ack boundary (no write in flight) the restarted node ends its log where the
+        //     live node did and holds at least what the live node held (a prefix the live node had
+        //     compacted may come back from the WAL); and nothing it holds contradicts the live log
+        //     (no truncated suffix, no entry superseded by a snapshot reappears)
         if self.calls.contains(&x) {
-            if let Some(&(len, li, lt)) = self.led.shape.get(&x) {
+            if let Some((first, li, lt, model)) = self.led.shape.get(&x).cloned() {
                 r.count("ack_boundary_shape_checks", 1);
-                let got = (node.log_length() as u64, node.last_log_index(), node.last_log_term());
-                if got != (len, li, lt) {
+                if (li_r, lt_r) != (li, lt) || first_r > first {
                     self.violation(
                         r,
                         "log-differs-at-ack-boundary",
                         x,
                         format!(
-                            "no write was in flight at WAL length {}: the live node had (log_length, last_log_index, last_log_term) = {:?}, the node restarted from exactly those bytes has {:?}",
-                            x,
-                            (len, li, lt),
-                            got
+                            "no write was in flight at WAL length {}: the live node held indices {}..={} (last_log_term {}), the node restarted from exactly those bytes holds {}..={} (last_log_term {})",
+                            x, first, li, lt, first_r, li_r, lt_r
                         ),
                     );
                     return;
+                }
+                if let Some(model) = model {
+                    r.count("ack_boundary_content_checks", 1);
+                    for i in first_r..=li_r {
+                        if held_len == 0 {
+                            break;
+                        }
+                        let raw = &rec.recovered_log[rec.recovered_log.len() - 1 - (li_r - i) as usize];
+                        let Ok(e) = bitcode::deserialize::<LogEntry>(raw) else { continue };
+                        let want = model.get(i as usize - 1).copied().unwrap_or(0);
+                        if want != 0 && (e.index != i || e.term != want) {
+                            self.violation(
+                                r,
+                                "restarted-log-contradicts-live-log",
+                                x,
+                                format!(
+                                    "no write was in flight at WAL length {}: the live node's log had term {} at index {} (it held {}..={}; what precedes was covered by a snapshot), the node restarted from exactly those bytes holds {}..={} with entry (index {}, term {}) at that index",
+                                    x, want, i, first, li, first_r, li_r, e.index, e.term
+                                ),
+                            );
+                            return;
+                        }
+                    }
                 }
             }
         }
@@ -1350,20 +1435,51 @@ impl Sim {
         // resynchronise the reference model with what the node actually came back with
         match RaftWal::open(&self.wal).and_then(|w| RaftRecoveryState::from_wal(&w)) {
             Ok(rec) => {
-                let mut m = Vec::new();
-                for (pos, raw) in rec.recovered_log.iter().enumerate() {
+                let (first_r, li_r, _) = held_range(self.node());
+                let held = self.node().log_length();
+                if rec.recovered_log.len() < held {
+                    r.inconclusive("RaftRecoveryState and the restarted node disagree");
+                    self.stop = true;
+                    return;
+                }
+                let mut run = Vec::new();
+                for (k, raw) in rec.recovered_log[rec.recovered_log.len() - held..].iter().enumerate() {
                     match bitcode::deserialize::<LogEntry>(raw) {
-                        Ok(e) if e.index == pos as u64 + 1 => m.push(e.term),
+                        Ok(e) if e.index == first_r + k as u64 => run.push(e.term),
                         _ => {
-                            // a log whose positions and indices disagree cannot be driven further
-                            // (seen after snapshot installs); the images were judged already
                             r.count("chains_ended_by_unusable_restarted_log", 1);
                             self.stop = true;
                             return;
                         }
                     }
                 }
+                // what precedes the first held index is covered by a snapshot: it is the prefix of
+                // the log of whichever leader produced the first held entry
+                let mut m: Vec<u64> = Vec::new();
+                if first_r > 1 {
+                    let need = first_r as usize - 1;
+                    let first_term = run.first().copied().unwrap_or(0);
+                    let from_leader = self.leaders.values().find(|l| l.len() > need && l[need] == first_term).map(|l| l[..need].to_vec());
+                    let from_model = if self.model_log.len() > need && self.model_log[need] == first_term { Some(self.model_log[..need].to_vec()) } else { None };
+                    match from_leader.or(from_model) {
+                        Some(p) => m = p,
+                        None => {
+                            r.count("chains_ended_by_unusable_restarted_log", 1);
+                            self.stop = true;
+                            return;
+                        }
+                    }
+                    r.count("restarts_with_compacted_prefix", 1);
+                }
+                m.extend(run);
+                if m.len() as u64 != li_r {
+                    r.count("chains_ended_by_unusable_restarted_log", 1);
+                    self.stop = true;
+                    return;
+                }
                 self.model_log = m;
+                self.base = first_r - 1;
+                self.committed = first_r as usize - 1;
             }
             Err(_) => {
                 r.inconclusive("from_wal failed right after with_wal succeeded");
@@ -1371,10 +1487,8 @@ impl Sim {
                 return;
             }
         }
-        let n = self.node();
-        let shape = (n.log_length() as u64, n.last_log_index(), n.last_log_term());
         self.calls.insert(l);
-        self.led.shape.insert(l, shape);
+        self.attach_model();
         self.check_model(r);
     }
 }
